@@ -520,10 +520,10 @@ pub fn case_strategy() -> impl Strategy<Value = Case> {
         2 => (time.clone(), prop::option::of(zone_strategy()), 0u8..5, 0u8..3).prop_map(|(t, z, c, w)| Shape::TimeAsUnix(t, z, c, w)),
         2 => (date_strategy(), time, any::<bool>()).prop_map(|(d, t, h)| {
             // `D at T`: a year-less date followed by a time is fine; the am/pm hour-only form stays a time
-            Shape::DateTimeVar(d, TimeLit { form: t.form % 2, s: None, ..t }, h)
+            Shape::DateTimeVar(d, TimeLit { form: t.form % 2, ..t }, h)
         }),
-        2 => (date_strategy(), crate::c11::time_strategy(), zone_strategy()).prop_map(|(d, t, z)| Shape::DateTimeZoneVar(d, TimeLit { form: t.form % 2, s: None, ..t }, z)),
-        1 => (date_strategy(), crate::c11::time_strategy()).prop_map(|(d, t)| Shape::DateNameAtTime(d, TimeLit { form: t.form % 2, s: None, ..t })),
+        2 => (date_strategy(), crate::c11::time_strategy(), zone_strategy()).prop_map(|(d, t, z)| Shape::DateTimeZoneVar(d, TimeLit { form: t.form % 2, ..t }, z)),
+        1 => (date_strategy(), crate::c11::time_strategy()).prop_map(|(d, t)| Shape::DateNameAtTime(d, TimeLit { form: t.form % 2, ..t })),
         2 => ts_strategy().prop_map(Shape::InverseLine),
         2 => (ts_strategy(), prop::option::of(zone_strategy())).prop_map(|(n, z)| Shape::InverseVar(n, z)),
         2 => date_strategy().prop_map(Shape::DateRoundTrip),
